@@ -261,7 +261,7 @@ def _run_paths(ctx, fn_name, engine, tag, wb, body, allowed_exc=(), max_paths=40
             if exc is None:
                 continue
             if isinstance(exc, PathTimeout):
-                chk.add("terminates", False, "no result after %d s on this path (the unchanged tree needs < 1%% of that): "
+                chk.add("terminates", False, "no result after %d s on this path: "
                         "non-termination or blow-up" % PATH_TIMEOUT_S, tags={"timeout": True})
                 continue
             if isinstance(exc, SpecUndecided) or not getattr(exc, "_from_code", False) and not isinstance(exc, (PathTimeout, Concretisation)):
